@@ -1,4 +1,5 @@
 import IkeProofs.Lemmas.Eap
+import IkeProofs.Lemmas.PrimsReal
 
 /-! # C15 — EAP-AKA' AT_MAC is HMAC-SHA-256-128 over the packet with the MAC field zeroed
 
@@ -293,5 +294,12 @@ theorem C15_D15_witness (P : Prims) (key : Bytes) :
   · unfold Spec.atMac
     rw [hz]
   · decide
+
+/-- The hypothesis `P.Lawful` of the theorems above (the AT_MAC theorems) is not an assumption about the
+primitives the model actually runs: the executable SHA-256 / SHA-1 / MD5 / HMAC / AES of
+`IkeModel/Crypto` — the ones the correspondence suites compare byte for byte with Go's standard
+library — satisfy it (digest lengths; AES block length; `dec k (enc k b) = b` for every key and
+block, proved from FIPS-197's inverse structure in `Lemmas/PrimsReal.lean`). -/
+theorem C15_real_lawful : Prims.real.Lawful := Prims.real_lawful
 
 end Ike
